@@ -57,6 +57,8 @@ type stub struct {
 	hold          bool   // hold client requests in flight until open
 	open          int    // number of held requests that may proceed
 	inflight      int
+	idleConns     int  // connections the transport keeps open to this backend between exchanges (see stubRT.RoundTrip)
+	closeIdle     bool // CloseIdleConnections was called since the last exchange started
 }
 
 type kit struct {
@@ -139,7 +141,65 @@ func mkResp(req *http.Request, code int, body string) *http.Response {
 	}
 }
 
+// The scripted transport keeps the books of an http.Transport's connection pool, as far as the
+// balancer can influence it: a client exchange takes an idle connection or opens one, and when
+// the response body has been read to its end and closed the connection goes back to the idle
+// pool - unless CloseIdleConnections has been called since the last exchange started (the
+// transport's closeIdle flag, which the next exchange resets), in which case it is closed.
+// idleConns is what the backend would still see open with nothing in flight.
 func (rt *stubRT) RoundTrip(req *http.Request) (*http.Response, error) {
+	st := rt.st
+	if st == nil && rt.k != nil {
+		st = rt.k.byHost[req.URL.Host]
+	}
+	if rt.probe || st == nil {
+		return rt.roundTrip(req)
+	}
+	st.closeIdle = false
+	if st.idleConns > 0 {
+		st.idleConns--
+	}
+	resp, err := rt.roundTrip(req)
+	if err == nil && resp != nil && resp.Body != nil && resp.StatusCode != http.StatusSwitchingProtocols {
+		resp.Body = &connBody{ReadCloser: resp.Body, st: st}
+	}
+	return resp, err
+}
+
+// CloseIdleConnections: see RoundTrip.
+func (rt *stubRT) CloseIdleConnections() {
+	if rt.st != nil && !rt.probe {
+		rt.st.idleConns = 0
+		rt.st.closeIdle = true
+	}
+}
+
+type connBody struct {
+	io.ReadCloser
+	st     *stub
+	broken bool
+	closed bool
+}
+
+func (b *connBody) Read(p []byte) (int, error) {
+	n, err := b.ReadCloser.Read(p)
+	if err != nil && err != io.EOF {
+		b.broken = true // a connection whose response broke off is not reused
+	}
+	return n, err
+}
+
+func (b *connBody) Close() error {
+	if !b.closed {
+		b.closed = true
+		if !b.broken && !b.st.closeIdle {
+			b.st.idleConns++
+		}
+	}
+	return b.ReadCloser.Close()
+}
+
+func (rt *stubRT) roundTrip(req *http.Request) (*http.Response, error) {
 	st := rt.st
 	if st == nil {
 		st = rt.k.byHost[req.URL.Host]
